@@ -307,7 +307,33 @@ def check_instance(ctx, tag, cls, kwargs, case):
                 kids = [k for k in back2.children]
                 ctx.check([type(k) for k in kids] == [type(k) for k in back.children], ("C12", cname, "children-class/alias-prefix"),
                           f"children classes {[type(k).__name__ for k in kids]} vs {[type(k).__name__ for k in back.children]}", case)
+    check_setters(ctx, cls, e, kw, kwargs, case)
     return e
+
+
+NO_SETTER_CHECK = {("Style", "family"), ("Table", "name"), ("NamedRange", "name"), ("NamedRange", "table_name"), ("NamedRange", "crange")}
+
+
+def check_setters(ctx, cls, e, kw, kwargs, case):
+    """an instance changed through a setter still agrees with the re-parse of its own XML (only the Style family, on which
+    other properties depend, is exercised: setters in general take the raw attribute strings and are outside the property)"""
+    from odfdo import Element
+
+    cname = cls.__name__
+    if cname == "Style" and e.tag == "style:style":
+        # the family itself: read, change, and the family-dependent properties follow the new family
+        with ctx.guard(("C12", cname, "family-setter-exception"), case):
+            old = e.family
+            new = "paragraph" if old != "paragraph" else "text"
+            e.family = new
+            ctx.check(e.family == new and Element.from_tag(e.serialize()).family == new, ("C12", cname, "setter-not-read-back", "family"),
+                      f"family {old!r} -> {new!r}: reads {e.family!r}, re-parsed {Element.from_tag(e.serialize()).family!r}", case)
+            e.master_page = "MP1"
+            twin = Element.from_tag(e.serialize())
+            want = "MP1" if new == "paragraph" else None
+            ctx.check(e.master_page == want and twin.master_page == want, ("C12", cname, "family-dependent-property", "master_page"),
+                      f"family changed {old!r} -> {new!r} after being read, then master_page = 'MP1': wrapper reads {e.master_page!r}, "
+                      f"a fresh wrapper of the same XML reads {twin.master_page!r}, expected {want!r}", case)
 
 
 def alias_prefixes(root):
@@ -527,6 +553,29 @@ def check_dispatch(ctx):
                       f"children of the parent of {qn}: tags {tags!r}", case)
             expect(el.clone, cls, "clone/with-comments", qn)
         ctx.ev(n_el)
+    # several annotations in one document: each wrapper reads (and writes) its own creator and date
+    with ctx.guard(("C12", "dispatch", "annotation-values-exception"), case):
+        from datetime import datetime as _dt
+
+        from odfdo import Paragraph as _P
+        from odfdo.note import Annotation as _A
+
+        d4 = Document("text")
+        d4.body.clear()
+        par = _P("one two three four")
+        d4.body.append(par)
+        for i, word in enumerate(("one", "two", "three")):
+            par.insert_annotation(_A(f"body{i}", creator=f"creator{i}", date=_dt(2024, 1, 10 + i, 8, 0, 0)), after=word)
+        d5 = Document("text")
+        d5.set_part("content.xml", d4.content.serialize())
+        for d_, label in ((d4, "live"), (d5, "parsed")):
+            got = [(a.creator, a.note_body, a.date) for a in d_.body.get_annotations()]
+            want = [(f"creator{i}", f"body{i}", _dt(2024, 1, 10 + i, 8, 0, 0)) for i in range(3)]
+            ctx.check(got == want, ("C12", "dispatch", "annotation-values"), f"annotations of one paragraph ({label}) read {got!r}, built as {want!r}", case)
+        second = d5.body.get_annotations()[1]
+        second.creator = "changed"
+        got = [a.creator for a in d5.body.get_annotations()]
+        ctx.check(got == ["creator0", "changed", "creator2"], ("C12", "dispatch", "annotation-values"), f"after setting the creator of the second: {got!r}", case)
     ctx.nontrivial(("dispatch", len(items)))
 
 
